@@ -100,69 +100,14 @@ def _unchanged_skip(f, e) -> str:
 
 def parent_mode(ctx, o, eff):
     prog = ctx.prog
+    A, N, AND = T.F_atom, T.F_not, T.F_and
     f = prog.func(SETTERS['parent'])
-    cfg = cfg_of(f)
-    gfs = guard_facts(ctx, f)
     writes = relation_write_nodes(ctx, f, eff)
-    atom = 'call:_has_id_intersection(arg,[self])'
-    cands = [g for g in gfs if (atom, True) in g.atoms]
-    if not cands:
-        alt = [g for g in gfs if any(a.startswith('call:_has_id_intersection') for a, p in g.atoms)]
-        if alt:
-            o.refute(f, alt[0].node, alt[0].node, f"the id check is `{[a for a, p in alt[0].atoms if a.startswith('call:')][0]}`; expected "
-                                                  f"_has_id_intersection(new parent, [task])")
-        else:
-            o.refute(f, f.node, 'id check', "a detached task can be attached without id check")
-    for g in cands:
-        if g.exc != 'RuntimeError':
-            o.refute(f, g.node, g.node, f"duplicate ids are rejected with {g.exc}")
-            continue
-        ctxs = dict((a, p) for a, p in g.atoms if a != atom)
-        bad = {a: p for a, p in ctxs.items() if not ((a == 'wbsnone(self)' and p is True) or (a == 'none(arg)' and p is False))}
-        unk = []
-        for u in g.unknown:
-            k = _unchanged_skip(f, u)
-            if k == 'identity':
-                continue
-            if k == 'by-id':
-                o.refute(f, g.node, u, "the id check is skipped when the new parent has the same ID as the current one: a different parent "
-                                       "object with an equal id is attached unchecked")
-                unk = None
-                break
-            unk.append(u)
-        if unk is None:
-            continue
-        by_id = [u for u in unk if any(isinstance(n, ast.Compare) and any(isinstance(x, ast.Attribute) and x.attr == 'id'
-                                                                         for x in [n.left] + list(n.comparators)) for n in ast.walk(u))]
-        if by_id:
-            o.refute(f, g.node, 'id check skipped by comparing ids', f"the id check is skipped under `{src(by_id[0])[:90]}`, a condition that compares task "
-                                                                      f"IDS: equal ids are exactly what must not be trusted here (two trees whose roots "
-                                                                      f"share an id are taken for one tree)")
-            continue
-        if bad or unk:
-            o.undecided(f, g.node, g.node, "id check under extra conditions: " + ', '.join(list(bad) + [src(u) for u in unk]))
-            continue
-        late = T.writes_not_preceded(cfg, f, g, writes)
-        # paths with wbs not None are vacuous for this guard: only count writes reachable with self.__wbs None
-        late = [w for w in late if _reaches_under(cfg, f, w[0], g)]
-        if late:
-            o.refute(f, g.node, g.node, f"the id check does not precede the write `{src(late[0][1])[:50]}`")
-        else:
-            o.site(f, g.node, "detached mode: _has_id_intersection(parent, [self]) before the first write")
-    # attached mode
-    att = [g for g in gfs if ('wbsneq(arg,self)', True) in g.atoms]
-    if not att:
-        o.refute(f, f.node, 'same WBS', "an attached task can be moved under a parent of another WBS (whose ids were never compared)")
-    for g in att:
-        if g.exc != 'RuntimeError' or g.unknown or any(a not in ('wbsneq(arg,self)', 'wbsnone(self)', 'none(arg)') for a, p in g.atoms):
-            o.undecided(f, g.node, g.node, "same-WBS guard in an unrecognised form")
-            continue
-        late = [w for w in T.writes_not_preceded(cfg, f, g, writes)]
-        late = [w for w in late if _reaches_under(cfg, f, w[0], g)]
-        if late:
-            o.refute(f, g.node, g.node, "the same-WBS guard does not precede the first write")
-        else:
-            o.site(f, g.node, "attached mode: parent must belong to the same WBS")
+    T.require(ctx, o, f, "detached task: ids of the subtree vs the receiving tree (skipped only when the parent OBJECT is unchanged)",
+              AND(A('wbsnone(self)'), N(A('none(arg)')), N(A('same(arg,self.parent)')), A('call:_has_id_intersection(arg,[self])')),
+              writes, eff, False, mode_filter=_reaches_under)
+    T.require(ctx, o, f, "attached task: the new parent must belong to the same WBS",
+              AND(N(A('wbsnone(self)')), N(A('none(arg)')), A('wbsneq(arg,self)')), writes, eff, False, mode_filter=_reaches_under)
 
 
 def _reaches_under(cfg, f, wn, g):
@@ -183,38 +128,13 @@ def _reaches_under(cfg, f, wn, g):
 
 def children_mode(ctx, o, eff):
     prog = ctx.prog
+    A, N, AND = T.F_atom, T.F_not, T.F_and
     f = prog.func(SETTERS['children'])
-    cfg = cfg_of(f)
-    gfs = guard_facts(ctx, f)
     writes = relation_write_nodes(ctx, f, eff)
-    atom = 'call:_has_id_intersection(self,arg)'
-    modes = {True: None, False: None}
-    for g in gfs:
-        if (atom, True) not in g.atoms:
-            continue
-        if g.exc != 'RuntimeError':
-            o.refute(f, g.node, g.node, f"duplicate ids are rejected with {g.exc}")
-            continue
-        mode = dict(g.atoms).get('wbsnone(self)')
-        late = [w for w in T.writes_not_preceded(cfg, f, g, writes) if _reaches_under(cfg, f, w[0], g)]
-        if late:
-            o.refute(f, g.node, g.node, f"the id check does not precede the write `{src(late[0][1])[:50]}`")
-            continue
-        if mode is None:
-            modes[True] = modes[False] = g
-        else:
-            modes[mode] = g
-    for mode, g in modes.items():
-        label = 'detached receiver' if mode else 'attached receiver'
-        if g is None:
-            other = [x for x in gfs if any(a.startswith('call:_has_id_intersection') for a, p in x.atoms)]
-            wrong = [x for x in other if (atom, True) not in x.atoms]
-            if wrong:
-                o.refute(f, wrong[0].node, wrong[0].node, f"{label}: the id check has the wrong arguments or polarity")
-            else:
-                o.refute(f, f.node, label, f"{label}: children are attached without id check")
-        else:
-            o.site(f, g.node, f"{label}: _has_id_intersection(self, value) before the first write")
+    T.require(ctx, o, f, "detached receiver: ids of the new children vs the receiving tree",
+              AND(A('wbsnone(self)'), A('call:_has_id_intersection(self,arg)')), writes, eff, False, mode_filter=_reaches_under)
+    T.require(ctx, o, f, "attached receiver: ids of the new children vs the whole WBS",
+              AND(N(A('wbsnone(self)')), A('call:_has_id_intersection(self,arg)')), writes, eff, False, mode_filter=_reaches_under)
 
 
 def scope(ctx, o):
